@@ -148,7 +148,7 @@ Definition answered (t : bytes) (rs : list resp) : Prop :=
 (* the contract of a command body: it returns a response or raises one of the
    exceptions _run_state maps to a tagged response *)
 Definition exec_ok (exec : ckind -> exec_result) : Prop :=
-  forall k, exec k <> EOther /\ exec k <> EWriteFails.
+  forall k, exec k <> EOther /\ exec k <> EWriteOther.
 
 Lemma Forall_repeat_cont n : Forall (fun r => r = RContinuation) (repeat RContinuation n).
 Proof. induction n; cbn [repeat]; constructor; auto. Qed.
@@ -184,11 +184,13 @@ Proof.
   destruct out as [k tag aux|tag r|n|x| |]; cbn in Hr, Ht, Hni; try contradiction.
   - destruct (refused st k); [apply Hbad; exact Ht|].
     destruct (He k) as [He1 He2]. subst tag.
-    destruct (exec k) as [c|c term| | | |]; try congruence.
+    destruct (exec k) as [c|c term| | |c| |]; try congruence.
     + destruct c; try (apply Hbad; reflexivity);
         cbn [fst]; unfold answered; cbn; repeat split; auto;
         left; eexists; (split; [|eexists; reflexivity]); cbn; auto.
     + destruct term; cbn [fst]; unfold answered; cbn; repeat split; auto;
+        left; eexists; (split; [|eexists; reflexivity]); cbn; auto.
+    + cbn [fst]; unfold answered; cbn; repeat split; auto;
         left; eexists; (split; [|eexists; reflexivity]); cbn; auto.
     + cbn [fst]; unfold answered; cbn; repeat split; auto;
         left; eexists; (split; [|eexists; reflexivity]); cbn; auto.
@@ -232,19 +234,19 @@ Proof.
   split; [intros k v; left; reflexivity|]. vm_compute. reflexivity.
 Qed.
 
-(* ... and one whose response cannot be written (FETCH BINARY[] of a part with
-   an unknown Content-Transfer-Encoding, open finding C06-F9) closes the
-   connection without a tagged completion and without BYE. *)
+(* ... and so is one whose response cannot be produced for another reason
+   than a ResponseError (before f39c4ca such a failure closed the connection
+   with neither tagged completion nor BYE: finding C06-F9). *)
 Theorem respond_unanswered_write_failure :
   exists o cfg st bad exec line supplied,
     oracle_total o /\
     let rs := fst (respond o cfg st bad exec line supplied) in
-    existsb is_close rs = true /\ existsb is_bye rs = false /\
+    existsb is_serverbug rs = true /\
     ~ (exists r, In r rs /\ tagged_with (line_tag line) r).
 Proof.
   exists (fun _ _ => 0%N), {| c_max_append := None; c_depth := 10 |}, NotAuth, 0,
-         (fun _ => EWriteFails), [97; 32; 78; 79; 79; 80; 13; 10]%N, [].
-  split; [intros k v; left; reflexivity|]. vm_compute. repeat split; auto.
+         (fun _ => EWriteOther), [97; 32; 78; 79; 79; 80; 13; 10]%N, [].
+  split; [intros k v; left; reflexivity|]. vm_compute. split; auto.
   intros (r & Hr & (c & ->)). destruct Hr as [Hr|[Hr|[]]]; discriminate.
 Qed.
 
